@@ -1411,6 +1411,10 @@ class Interp:
                 as_lv.append(bool(a.get('lv') and at and at.get('k') in ('rec', 'array')))
         out = []
         for s, thisv in states:
+            if n['k'] == 'CXXMemberCallExpr' and thisv is not None and thisv[0] == 'null' and not callee.get('static'):
+                # a member function called through a null pointer: reported, and the path ends (there is no object to run on)
+                self.emit('nullderef', s, node=n, val=thisv)
+                continue
             for s2, vals in self.ev_list(argnodes, s, fr, as_lv):
                 out += self.dispatch(n, s2, fr, callee, thisv, vals, argnodes)
         return out
@@ -1876,6 +1880,13 @@ class Interp:
             for s2, v in self.ev(n['cond'], s, fr):
                 poss = setof(v)
                 entries = []
+                symname = None
+                if poss is None and v[0] == 'l' and v[1] == 0 and len(v[2]) == 1 and v[2][0][1] == 1 and v[2][0][0] in s2.sym:
+                    # one ranged unknown: each label (and the default) gets exactly the values of the range that select it
+                    r_ = s2.sym[v[2][0][0]]
+                    if r_[1] - r_[0] <= 1024:
+                        symname = v[2][0][0]
+                        poss = set(range(r_[0], r_[1] + 1))
                 if poss is not None:
                     groups = {}
                     for x in poss:
@@ -1883,6 +1894,11 @@ class Interp:
                         groups.setdefault(lab, set()).add(x)
                     for lab, xs in groups.items():
                         s3 = s2.copy() if len(groups) > 1 else s2
+                        if symname is not None:
+                            s3.sym[symname] = (min(xs), max(xs))
+                            s3.note((nloc(n), 'case %s' % lab))
+                            entries.append((s3, lab))
+                            continue
                         if len(groups) > 1:
                             lvn = self._lvalue_of_rvalue(n['cond'])
                             if lvn is not None:
